@@ -11,7 +11,8 @@ import specs.rfc9535 as spec
 from jsonpath.match import JSONPathMatch
 
 # names chosen to stress quoting, escaping, look-alikes of indices and reserved words
-NAMES = ["a", "b", "", "1", "-1", "a b", "é", "😀", "'", '"', "\\", "a\\", "\n", "and", "true", "~", "#", "$", "0x1", "☺", "~1", "/", "a/b", "m~n", "~01"]
+NAMES = ["a", "b", "", "1", "-1", "a b", "é", "😀", "'", '"', "\\", "a\\", "\n", "and", "true", "~", "#", "$", "0x1", "☺", "~1", "/", "a/b", "m~n", "~01",
+         "a\x7fb", "\\\"", "\\'", "\"\\", "a\n", "-"]
 SAFE_NAMES = ["a", "b", "c1", "_x", "é"]  # valid as dot shorthand
 
 DOCS = [
